@@ -34,50 +34,73 @@ func LogCanon(l *reftable.LogRecord, hashSize int) string {
 	return refdb.LogString(l.RefName, l.UpdateIndex, l.IsDeletion(), l.Old, l.New, l.Name, l.Email, l.Time, l.TZOffset, l.Message, hashSize)
 }
 
-// ScanRefs iterates refs from a seek key to exhaustion.
+// ScanRefs iterates refs from a seek key to exhaustion, the way callers do: with ONE record that is
+// reused for every NextRef call. Each record is canonicalised when it is handed out, and a copy of the
+// struct (sharing its slices) is kept; at the end every kept copy must still canonicalise to the same
+// string - a record the caller was given must not be overwritten by later calls on the iterator.
 func ScanRefs(tab reftable.Table, from string) ([]string, error) {
 	it, err := tab.SeekRef(from)
 	if err != nil {
 		return nil, err
 	}
 	var out []string
+	var kept []reftable.RefRecord
+	var r reftable.RefRecord
 	for {
-		var r reftable.RefRecord
 		ok, err := it.NextRef(&r)
 		if err != nil {
 			return out, err
 		}
 		if !ok {
-			return out, nil
+			break
 		}
 		out = append(out, RefCanon(&r))
+		if len(kept) < 4096 {
+			kept = append(kept, r)
+		}
 		if len(out) > 1<<20 {
 			return out, fmt.Errorf("scan does not terminate")
 		}
 	}
+	for i := range kept {
+		if c := RefCanon(&kept[i]); c != out[i] {
+			return out, fmt.Errorf("iterator writes into buffers of a ref record it handed out earlier: record %d was %s when NextRef returned it and reads %s after later NextRef calls", i, out[i], c)
+		}
+	}
+	return out, nil
 }
 
-// ScanLogs iterates logs from a seek key to exhaustion.
+// ScanLogs iterates logs from a seek key to exhaustion (one reused record, see ScanRefs).
 func ScanLogs(tab reftable.Table, name string, ui uint64, hashSize int) ([]string, error) {
 	it, err := tab.SeekLog(name, ui)
 	if err != nil {
 		return nil, err
 	}
 	var out []string
+	var kept []reftable.LogRecord
+	var l reftable.LogRecord
 	for {
-		var l reftable.LogRecord
 		ok, err := it.NextLog(&l)
 		if err != nil {
 			return out, err
 		}
 		if !ok {
-			return out, nil
+			break
 		}
 		out = append(out, LogCanon(&l, hashSize))
+		if len(kept) < 4096 {
+			kept = append(kept, l)
+		}
 		if len(out) > 1<<20 {
 			return out, fmt.Errorf("scan does not terminate")
 		}
 	}
+	for i := range kept {
+		if c := LogCanon(&kept[i], hashSize); c != out[i] {
+			return out, fmt.Errorf("iterator writes into buffers of a log record it handed out earlier: record %d was %s when NextLog returned it and reads %s after later NextLog calls", i, out[i], c)
+		}
+	}
+	return out, nil
 }
 
 // ReadAll is the full ref + log scan of a table or merged view.
